@@ -240,6 +240,15 @@ pub fn gen_c05(out: &mut Out, rng: &mut Rng, thorough: bool) {
         }
         monitor_line(out, &format!("stream {codec} {evs}"));
     }
+    // every small value of the length field, one frame each, followed by a second frame
+    for len_field in 1usize..=300 {
+        let pdu = rng.bytes(len_field - 1);
+        let mut s = spec::mbap(rng.u16(), rng.u8(), &pdu);
+        s.extend(spec::mbap(7, 7, &[0x42]));
+        let cut = rng.range(1, s.len() - 1);
+        let codec = ["tcpadu", "tcpsrv", "tcpcli"][len_field % 3];
+        monitor_line(out, &format!("stream {codec} d{},d{}", hex_raw(&s[..cut]), hex_raw(&s[cut..])));
+    }
     // the extreme length field values
     for len_field in [1usize, 2, 254, 255, 256, 257, 4096, 65534, 65535] {
         let pdu = rng.bytes(len_field - 1);
